@@ -885,8 +885,12 @@ func RunJavascript(ctx *Context, bs *Bindings, props map[string]interface{}, src
 
 	// I guess we'll keep these props out of the versioned
 	// environment.
+	//
+	// A copy for this script: the props come from the location's
+	// control, which other locations share, and the engine hands
+	// maps and arrays to the script by reference.
 	for k, v := range props {
-		env[k] = v
+		env[k] = Copy(v)
 	}
 
 	if err := runtime.Set("Env", env); err != nil {
